@@ -11,5 +11,6 @@ Valid(api, form, m, i) ==
     /\ form = "literal" => i # "missing_source"
 Plans == {p \in [api : Apis, backend : Backends, srcform : SrcForms, mode : {mode}, dest : {dest}, input : {input}] :
             Valid(p.api, p.srcform, mode, input)}
-EmitPlans == pc = "start" => \A p \in Plans : PrintT(<<"CASE", ToJson(p)>>)
+\* (one print per scenario: the text's shape is not the harness's to choose, it records the shape it meets)
+EmitPlans == (pc = "start" /\ shape = "ends_in_newline") => \A p \in Plans : PrintT(<<"CASE", ToJson(p)>>)
 =============================================================================
